@@ -72,6 +72,9 @@ type c11Leaf struct {
 	AltValue string   `json:"alt_value,omitempty"` // alternative pre-image accepted for the HMAC (JWT id)
 	Plain    []string `json:"plain"`               // substrings that reveal the secret
 	Silent   bool     `json:"silent,omitempty"`    // not marshalled at all (unexported / json:"-"): must simply never show up
+	Shape    string   `json:"shape,omitempty"`     // shape class of the string value (data leaves)
+	Quoted   []string `json:"quoted,omitempty"`    // shapes that cannot embed a canary: the complete value as a JSON string token, searched in value position and judged by count
+	TimeOK   bool     `json:"rfc3339,omitempty"`   // the emitted string is an RFC 3339 timestamp and nothing else (left readable by design, see assumptions)
 }
 
 // typed values the payload generator sprinkles in
@@ -113,6 +116,9 @@ type c11Gen struct {
 	leaves   []c11Leaf
 	keysUsed map[string]bool
 	types    map[string]int
+	ctr      *int // per-case leaf counter shared by the request and the response generator: makes short values unique within a case
+	base     int  // per-case constant mixed into short values
+	last     c11SV
 }
 
 var c11KeyPool = []string{"keys", "key_info", "token", "password", "data", "value", "secret", "id", "common_name", "metadata", "a", "b", "error", "ttl", "policies"}
@@ -144,11 +150,251 @@ var c11Decor = []struct{ pre, post string }{
 	{" ", " "}, {"{\"json\":\"", "\"}"}, {"hmac-sha256:", ""}, {strings.Repeat("x", 300), ""},
 }
 
-// secretString returns a string containing a fresh canary.
+// c11SV is one generated secret string.
+type c11SV struct {
+	val    string
+	canary string // unique substring; "" when the shape has no room for one
+	shape  string
+}
+
+var c11Epoch = time.Date(2001, 1, 1, 0, 0, 0, 0, time.UTC)
+
+// c11IsRFC3339 is the oracle's own reading of RFC 3339 section 5.6 (date-time
+// ABNF plus the field ranges of 5.7): the one string form the formatter is
+// assumed to leave readable on purpose.
+func c11IsRFC3339(s string) bool {
+	isD := func(i int) bool { return i < len(s) && s[i] >= '0' && s[i] <= '9' }
+	num := func(i, n int) (int, bool) {
+		v := 0
+		for k := 0; k < n; k++ {
+			if !isD(i + k) {
+				return 0, false
+			}
+			v = v*10 + int(s[i+k]-'0')
+		}
+		return v, true
+	}
+	if len(s) < len("2006-01-02T15:04:05Z") {
+		return false
+	}
+	year, ok1 := num(0, 4)
+	mon, ok2 := num(5, 2)
+	day, ok3 := num(8, 2)
+	hh, ok4 := num(11, 2)
+	mm, ok5 := num(14, 2)
+	ss, ok6 := num(17, 2)
+	if !(ok1 && ok2 && ok3 && ok4 && ok5 && ok6) || s[4] != '-' || s[7] != '-' || (s[10] != 'T' && s[10] != 't') || s[13] != ':' || s[16] != ':' {
+		return false
+	}
+	dim := []int{31, 28, 31, 30, 31, 30, 31, 31, 30, 31, 30, 31}
+	if mon < 1 || mon > 12 {
+		return false
+	}
+	maxDay := dim[mon-1]
+	if mon == 2 && year%4 == 0 && (year%100 != 0 || year%400 == 0) {
+		maxDay = 29
+	}
+	if day < 1 || day > maxDay || hh > 23 || mm > 59 || ss > 60 {
+		return false
+	}
+	i := 19
+	if i < len(s) && s[i] == '.' {
+		i++
+		if !isD(i) {
+			return false
+		}
+		for isD(i) {
+			i++
+		}
+	}
+	rest := s[i:]
+	if rest == "Z" || rest == "z" {
+		return true
+	}
+	if len(rest) != len("+07:00") || (rest[0] != '+' && rest[0] != '-') || rest[3] != ':' {
+		return false
+	}
+	zh, okh := num(i+1, 2)
+	zm, okm := num(i+4, 2)
+	return okh && okm && zh <= 23 && zm <= 59
+}
+
+// c11Shapes lists the shape classes of string values with their weights.
+var c11Shapes = []struct {
+	name string
+	w    int
+}{
+	{"token", 40}, {"digits-pin", 4}, {"digits-otp", 5}, {"digits-epoch", 4}, {"digits-leading-zeros", 2}, {"digits-signed", 3}, {"digits-huge", 1},
+	{"date-only", 2}, {"rfc3339-near", 4}, {"rfc3339-lenient", 2}, {"rfc3339-exact", 3}, {"keyword", 3}, {"number-string", 4}, {"json-looking", 3},
+	{"base64", 3}, {"hex", 2}, {"uuid", 2}, {"hmac-lookalike", 1}, {"empty", 2}, {"whitespace", 2}, {"long", 1}, {"unicode", 3}, {"field-name", 4},
+}
+
+// shaped returns a fresh secret string of a randomly chosen shape class. Where
+// the shape allows it the value is unique within the case (random canary, or
+// digits / seconds derived from the per-case leaf counter).
+func (g *c11Gen) shaped() c11SV {
+	rng := g.rng
+	n := 0
+	if g.ctr != nil {
+		n = *g.ctr
+		*g.ctr++
+	}
+	total := 0
+	for _, s := range c11Shapes {
+		total += s.w
+	}
+	roll, shape := rng.Intn(total), "token"
+	for _, s := range c11Shapes {
+		if roll < s.w {
+			shape = s.name
+			break
+		}
+		roll -= s.w
+	}
+	if n >= 1000 || (shape == "digits-pin" && n >= 200) {
+		shape = "token"
+	}
+	digits := func(w int) string { // w digits; the last three are the leaf counter
+		b := make([]byte, w)
+		for i := range b {
+			b[i] = byte('0' + rng.Intn(10))
+		}
+		copy(b[w-3:], fmt.Sprintf("%03d", n))
+		return string(b)
+	}
+	ts := c11Epoch.Add(time.Duration(g.base)*time.Hour + time.Duration(n)*time.Second)
+	canary := rng.Canary()
+	switch shape {
+	case "digits-pin":
+		return c11SV{fmt.Sprintf("%04d", (g.base%50)*200+n), "", shape}
+	case "digits-otp":
+		return c11SV{digits(6 + rng.Intn(3)), "", shape}
+	case "digits-epoch":
+		sec := int64(1600000000) + int64(rng.Intn(100000))*1000 + int64(n)
+		switch rng.Intn(3) {
+		case 0:
+			return c11SV{fmt.Sprint(sec), "", shape} // 10 digits: seconds
+		case 1:
+			return c11SV{fmt.Sprintf("%d%03d", sec, rng.Intn(1000)), "", shape} // 13 digits: milliseconds
+		}
+		return c11SV{fmt.Sprintf("%d%09d", sec, rng.Intn(1000000000)), "", shape} // 19 digits: nanoseconds, still an int64
+	case "digits-leading-zeros":
+		return c11SV{strings.Repeat("0", 1+rng.Intn(3)) + digits(5), "", shape}
+	case "digits-signed":
+		return c11SV{kit.Pick(rng, []string{"-", "-", "+"}) + digits(4+rng.Intn(8)), "", shape}
+	case "digits-huge":
+		return c11SV{"9" + digits(24+rng.Intn(10)), "", shape} // exceeds every machine integer
+	case "date-only":
+		return c11SV{c11Epoch.AddDate(0, 0, g.base*1000+n).Format("2006-01-02"), "", shape}
+	case "rfc3339-near": // looks like a timestamp, is not one
+		f := ts.Format("2006-01-02T15:04:05")
+		switch rng.Intn(9) {
+		case 0:
+			return c11SV{f, "", shape} // no zone
+		case 1:
+			return c11SV{ts.Format("2006-01-02 15:04:05") + "Z", "", shape}
+		case 2:
+			return c11SV{f + "Z tail", "", shape}
+		case 3:
+			return c11SV{" " + f + "Z", "", shape}
+		case 4:
+			return c11SV{f + "Z\n", "", shape}
+		case 5:
+			return c11SV{ts.Format("2006-13-02T15:04:05") + "Z", "", shape} // month 13
+		case 6:
+			return c11SV{ts.Format("2006-02-30T15:04:05") + "Z", "", shape} // 30 February
+		case 7:
+			return c11SV{ts.Format("2006-01-02T24:04:05") + "Z", "", shape} // hour 24
+		}
+		return c11SV{f + "+0530", "", shape}
+	case "rfc3339-lenient": // not RFC 3339, but close enough for a lenient parser
+		switch rng.Intn(4) {
+		case 0:
+			return c11SV{ts.Format("2006-01-02T") + "7" + ts.Format(":04:05Z"), "", shape} // one-digit hour
+		case 1:
+			return c11SV{ts.Format("2006-01-02T15:04:05") + ",5Z", "", shape} // comma as fraction separator
+		case 2:
+			return c11SV{ts.Format("2006-01-02T15:04:05") + "+24:00", "", shape} // zone hour out of range
+		}
+		return c11SV{ts.Format("2006-01-02T15:04:05") + "+23:60", "", shape} // zone minute out of range
+	case "rfc3339-exact":
+		switch rng.Intn(4) {
+		case 0:
+			return c11SV{ts.Format(time.RFC3339), "", shape}
+		case 1:
+			return c11SV{ts.Add(time.Duration(1 + rng.Intn(999999999))).Format(time.RFC3339Nano), "", shape}
+		case 2:
+			return c11SV{ts.In(time.FixedZone("", 5*3600+1800)).Format(time.RFC3339), "", shape}
+		}
+		return c11SV{ts.In(time.FixedZone("", -8*3600)).Format(time.RFC3339Nano), "", shape}
+	case "keyword":
+		return c11SV{kit.Pick(rng, []string{"true", "false", "null", "TRUE", "yes", "nil", "NaN", "undefined"}), "", shape}
+	case "number-string":
+		switch rng.Intn(5) {
+		case 0:
+			return c11SV{fmt.Sprintf("%d.5", 100+n), "", shape}
+		case 1:
+			return c11SV{fmt.Sprintf("0x%x", 4096+n*7+g.base*100000), "", shape}
+		case 2:
+			return c11SV{fmt.Sprintf("%de9", 1+n), "", shape}
+		case 3:
+			return c11SV{fmt.Sprintf("-%d.%03de-3", g.base, n), "", shape}
+		}
+		return c11SV{fmt.Sprintf("1_%03d_000", n), "", shape}
+	case "json-looking":
+		switch rng.Intn(4) {
+		case 0:
+			return c11SV{`{"password":"` + canary + `"}`, canary, shape}
+		case 1:
+			return c11SV{`["` + canary + `",1,null]`, canary, shape}
+		case 2:
+			return c11SV{`"` + canary + `"`, canary, shape}
+		}
+		return c11SV{`{"data":{"keys":["` + canary + `"]},"n":` + fmt.Sprint(n) + `}`, canary, shape}
+	case "base64":
+		b := rng.Bytes(12 + rng.Intn(24))
+		v := kit.Pick(rng, []*base64.Encoding{base64.StdEncoding, base64.URLEncoding, base64.RawStdEncoding}).EncodeToString(b)
+		return c11SV{v, v, shape}
+	case "hex":
+		v := hex.EncodeToString(rng.Bytes(16 + 16*rng.Intn(2)))
+		if rng.Chance(1, 3) {
+			v = strings.ToUpper(v)
+		}
+		return c11SV{v, v, shape}
+	case "uuid":
+		h := hex.EncodeToString(rng.Bytes(16))
+		v := h[0:8] + "-" + h[8:12] + "-" + h[12:16] + "-" + h[16:20] + "-" + h[20:32]
+		return c11SV{v, v, shape}
+	case "hmac-lookalike":
+		h := hex.EncodeToString(rng.Bytes(32))
+		return c11SV{"hmac-sha256:" + h, h, shape}
+	case "empty":
+		return c11SV{"", "", shape}
+	case "whitespace":
+		return c11SV{kit.Pick(rng, []string{" ", "\t", "\n", "   ", " \r\n "}), "", shape}
+	case "long":
+		return c11SV{strings.Repeat(kit.Pick(rng, []string{"A", "0", "ab ", "é"}), kit.Pick(rng, []int{4096, 4096, 20000, 20000, 20000, 70000})) + canary, canary, shape}
+	case "unicode":
+		d := kit.Pick(rng, []struct{ pre, post string }{{"пароль-", "-密码"}, {"🔑", "🔒🔒"}, {"e\u0301\u0301", "\u200f\u202e"}, {"line\u2028sep", "\u2029"}, {"nul\x00", "\x7f"}, {"ＦＵＬＬ", "ｗｉｄｔｈ"}})
+		return c11SV{d.pre + canary + d.post, canary, shape}
+	case "field-name":
+		return c11SV{kit.Pick(rng, []string{"client_token", "data", "keys", "password", "accessor", "wrap_info", "secret_value", "client_token_accessor", "hmac-sha256:"}), "", shape}
+	}
+	d := kit.Pick(rng, c11Decor)
+	return c11SV{d.pre + canary + d.post, canary, "token"}
+}
+
+// secretString returns a fresh secret string; canary is the unique substring
+// that identifies it ("" when the shape cannot carry one - addLeaf then
+// arranges a search for the complete value).
 func (g *c11Gen) secretString() (val, canary string) {
-	canary = g.rng.Canary()
-	d := kit.Pick(g.rng, c11Decor)
-	return d.pre + canary + d.post, canary
+	g.last = g.shaped()
+	return g.last.val, g.last.canary
+}
+
+func c11Quote(s string) string {
+	b, _ := json.Marshal(s)
+	return string(b)
 }
 
 func (g *c11Gen) addLeaf(l c11Leaf) {
@@ -156,7 +402,15 @@ func (g *c11Gen) addLeaf(l c11Leaf) {
 	if l.Kind == "" {
 		l.Kind = c11KindData
 	}
+	l.Shape = g.last.shape
+	if g.last.canary == "" {
+		// no room for a canary: look for the complete emitted string instead
+		l.Plain = nil
+		l.Quoted = []string{c11Quote(l.Value)}
+	}
+	l.TimeOK = c11IsRFC3339(l.Value)
 	g.types[l.GoType]++
+	g.types["shape:"+l.Shape]++
 	g.leaves = append(g.leaves, l)
 }
 
@@ -433,6 +687,9 @@ func (g *c11Gen) dataMap(shape string) map[string]any {
 		}
 		used[logical.HTTPRawBody] = true
 		g.addLeaf(c11Leaf{Path: logical.HTTPRawBody, Keys: []string{logical.HTTPRawBody}, GoType: "raw-body-[]byte", Depth: 1, Value: body, Plain: []string{c, base64.StdEncoding.EncodeToString([]byte(body))}})
+		if rl := &g.leaves[len(g.leaves)-1]; len(rl.Quoted) > 0 && body != "" {
+			rl.Quoted = append(rl.Quoted, c11Quote(base64.StdEncoding.EncodeToString([]byte(body))))
+		}
 		m[logical.HTTPRawBody] = []byte(body)
 		m[logical.HTTPContentType] = "application/json"
 		m[logical.HTTPStatusCode] = 200
@@ -539,7 +796,8 @@ func c11BuildCase(seed int64, idx int) *c11Case {
 
 	// request data
 	reqShape := kit.Pick(rng, []string{"gen", "gen", "gen", "gen", "nil", "empty"})
-	gq := &c11Gen{rng: rng, side: "req", maxDepth: maxDepth, budget: 40, keysUsed: map[string]bool{}, types: cs.Types}
+	leafCtr, base := 0, rng.Intn(1000)
+	gq := &c11Gen{rng: rng, side: "req", maxDepth: maxDepth, budget: 40, keysUsed: map[string]bool{}, types: cs.Types, ctr: &leafCtr, base: base}
 	req.Data = gq.dataMap(reqShape)
 	leaves = append(leaves, gq.leaves...)
 	cs.ReqExempt = c11PickExempt(rng, gq.keysUsed)
@@ -580,7 +838,7 @@ func c11BuildCase(seed int64, idx int) *c11Case {
 			shapes = []string{"list", "list", "list", "gen", "empty"}
 		}
 		respShape := kit.Pick(rng, shapes)
-		gp := &c11Gen{rng: rng, side: "resp", maxDepth: maxDepth, budget: 40, keysUsed: map[string]bool{}, types: cs.Types}
+		gp := &c11Gen{rng: rng, side: "resp", maxDepth: maxDepth, budget: 40, keysUsed: map[string]bool{}, types: cs.Types, ctr: &leafCtr, base: base}
 		resp.Data = gp.dataMap(respShape)
 		leaves = append(leaves, gp.leaves...)
 		cs.RespExempt = c11PickExempt(rng, gp.keysUsed)
@@ -672,6 +930,39 @@ func c11InSet(set []string, keys []string) bool {
 	return false
 }
 
+// c11ValueOcc counts how often the JSON string token q stands in value
+// position (not followed by ':', i.e. not a map key) in out.
+func c11ValueOcc(out []byte, q string) int {
+	n, from := 0, 0
+	for {
+		i := bytes.Index(out[from:], []byte(q))
+		if i < 0 {
+			return n
+		}
+		end := from + i + len(q)
+		// the match must start at a token boundary: the opening quote is not an escaped quote inside another string
+		startOK := from+i == 0 || out[from+i-1] != '\\'
+		if startOK && (end >= len(out) || out[end] != ':') {
+			n++
+		}
+		from = from + i + 1
+	}
+}
+
+// c11LeafStatus derives what the property allows for one leaf in one entry.
+func c11LeafStatus(cs *c11Case, cfg c11Cfg, phase string, fmtErr error, l *c11Leaf) (emitted, exempt, mayBePlain bool) {
+	emitted = fmtErr == nil && !l.Silent && (l.Side == "req" || phase == "response")
+	if l.Kind == c11KindData {
+		if l.Side == "req" {
+			exempt = c11InSet(cs.ReqExempt, l.Keys)
+		} else {
+			exempt = c11InSet(cs.RespExempt, l.Keys)
+		}
+	}
+	mayBePlain = exempt || (l.Kind == c11KindAccessor && !cfg.HMACAccessor) || (l.Kind == c11KindData && (l.TimeOK || l.Value == ""))
+	return emitted, exempt, mayBePlain
+}
+
 // c11CheckEntry applies the property to one emitted entry.
 // phase: "request" (request entry: only the request half is emitted) or "response".
 func c11CheckEntry(r *kit.Result, cs *c11Case, cfg c11Cfg, phase string, saltVal string, out []byte, fmtErr error) {
@@ -680,45 +971,78 @@ func c11CheckEntry(r *kit.Result, cs *c11Case, cfg c11Cfg, phase string, saltVal
 		r.Count("format_errors", 1)
 	}
 	listElide := cfg.Elide && cs.In.Request.Operation == logical.ListOperation
+	// Values without room for a canary are searched as complete JSON string
+	// tokens. Several leaves of a case may share such a value ("true", " "):
+	// the entry may hold it in plaintext at most as often as there are leaves
+	// with that value which the property allows to be readable.
+	allowed := map[string]int{}
+	occ := map[string]int{}
 	for i := range cs.Leaves {
 		l := &cs.Leaves[i]
-		emitted := fmtErr == nil && !l.Silent && (l.Side == "req" || phase == "response")
-		exempt := false
-		if l.Kind == c11KindData {
-			if l.Side == "req" {
-				exempt = c11InSet(cs.ReqExempt, l.Keys)
-			} else {
-				exempt = c11InSet(cs.RespExempt, l.Keys)
+		if len(l.Quoted) == 0 {
+			continue
+		}
+		emitted, _, mayBePlain := c11LeafStatus(cs, cfg, phase, fmtErr, l)
+		for _, q := range l.Quoted {
+			if _, done := occ[q]; !done {
+				occ[q] = c11ValueOcc(out, q)
+			}
+			if emitted && mayBePlain {
+				allowed[q]++
 			}
 		}
+	}
+	for i := range cs.Leaves {
+		l := &cs.Leaves[i]
+		emitted, exempt, mayBePlain := c11LeafStatus(cs, cfg, phase, fmtErr, l)
 		plainSeen := ""
 		for _, p := range l.Plain {
-			if c11Contains(out, p) {
+			if p != "" && c11Contains(out, p) {
 				plainSeen = p
 				break
+			}
+		}
+		for _, q := range l.Quoted {
+			if plainSeen != "" {
+				break
+			}
+			if cfg.Raw || mayBePlain {
+				if occ[q] > 0 {
+					plainSeen = q
+				}
+			} else if occ[q] > allowed[q] {
+				plainSeen = q
 			}
 		}
 		hmacSeen := c11Contains(out, c11RefHMAC(saltVal, l.Value)) || (l.AltValue != "" && c11Contains(out, c11RefHMAC(saltVal, l.AltValue)))
 
 		if cfg.Raw {
 			// control: in raw mode the secrets must be visible, which proves the search can see them
-			if emitted && !(listElide && l.Side == "resp" && len(l.Keys) > 0 && (l.Keys[0] == "keys" || l.Keys[0] == "key_info")) {
+			if emitted && l.Value != "" && !(listElide && l.Side == "resp" && len(l.Keys) > 0 && (l.Keys[0] == "keys" || l.Keys[0] == "key_info")) {
 				if plainSeen != "" {
 					r.Count("raw_control_found", 1)
+					if l.Kind == c11KindData {
+						r.Count("raw_control_found_shape:"+l.Shape, 1)
+					}
 				} else {
 					r.Count("raw_control_missing", 1)
-					r.Note("raw control: %s leaf %s (%s) not visible in a log_raw entry of case %s", l.Kind, l.Path, l.GoType, cs.ID)
+					r.Note("raw control: %s leaf %s (%s, shape %s) not visible in a log_raw entry of case %s", l.Kind, l.Path, l.GoType, l.Shape, cs.ID)
 				}
 			}
 			continue
 		}
 		r.Count("leaves_checked", 1)
+		if l.Kind == c11KindData {
+			r.Count("shape_leaves_checked:"+l.Shape, 1)
+		}
 
-		mayBePlain := exempt || (l.Kind == c11KindAccessor && !cfg.HMACAccessor)
 		if plainSeen != "" && !mayBePlain {
 			class := map[string]string{c11KindData: "C11-plaintext-data-leaf", c11KindToken: "C11-plaintext-client-token", c11KindWrapTok: "C11-plaintext-wrapping-token", c11KindAccessor: "C11-plaintext-accessor"}[l.Kind]
-			r.Violate(class, cs.ID, fmt.Sprintf("%s entry (%s) contains the plaintext of %s %s [%s, go type %s, depth %d]", phase, cfg, l.Kind, l.Path, l.Side, l.GoType, l.Depth),
-				map[string]any{"leaf": l, "config": cfg.String(), "phase": phase, "req_exempt": cs.ReqExempt, "resp_exempt": cs.RespExempt, "operation": cs.In.Request.Operation, "entry_excerpt": c11Snip(out, plainSeen)})
+			if l.Kind == c11KindData && l.Shape != "" && l.Shape != "token" {
+				class += "-" + l.Shape
+			}
+			r.Violate(class, cs.ID, fmt.Sprintf("%s entry (%s) contains the plaintext of %s %s [%s, go type %s, depth %d, value shape %q]", phase, cfg, l.Kind, l.Path, l.Side, l.GoType, l.Depth, l.Shape),
+				map[string]any{"leaf": l, "config": cfg.String(), "phase": phase, "req_exempt": cs.ReqExempt, "resp_exempt": cs.RespExempt, "operation": cs.In.Request.Operation, "found": plainSeen, "occurrences_in_value_position": occ[plainSeen], "occurrences_the_property_allows": allowed[plainSeen], "entry_excerpt": c11Snip(out, plainSeen)})
 			continue
 		}
 		if !emitted {
@@ -729,6 +1053,9 @@ func c11CheckEntry(r *kit.Result, cs *c11Case, cfg c11Cfg, phase string, saltVal
 		case hmacSeen:
 			r.Count("leaves_hmac_seen", 1)
 			r.Count("hmac_seen:"+l.Kind, 1)
+			if l.Kind == c11KindData {
+				r.Count("shape_hmac_seen:"+l.Shape, 1)
+			}
 			if l.Depth >= 5 {
 				r.Count("leaves_hmac_seen_depth5plus", 1)
 			}
@@ -736,15 +1063,20 @@ func c11CheckEntry(r *kit.Result, cs *c11Case, cfg c11Cfg, phase string, saltVal
 				r.Count("leaves_elidable_but_hashed", 1)
 			}
 		case plainSeen != "" && mayBePlain:
-			if exempt {
+			switch {
+			case exempt:
 				r.Count("leaves_exempt_plain_seen", 1)
-			} else {
+			case l.Kind == c11KindData && l.Value == "":
+				r.Count("empty_string_left_empty", 1)
+			case l.Kind == c11KindData && l.TimeOK:
+				r.Count("rfc3339_timestamp_left_readable", 1)
+			default:
 				r.Count("accessor_plain_seen_hmac_accessor_off", 1)
 			}
 		case elided:
 			r.Count("leaves_elided", 1)
 		default:
-			r.Violate("C11-hmac-missing", cs.ID, fmt.Sprintf("%s entry (%s): %s %s [%s, go type %s] appears neither as its salted HMAC nor (where allowed) in plaintext - the value was dropped or transformed, so the entry cannot vouch for it", phase, cfg, l.Kind, l.Path, l.Side, l.GoType),
+			r.Violate("C11-hmac-missing", cs.ID, fmt.Sprintf("%s entry (%s): %s %s [%s, go type %s, value shape %q] appears neither as its salted HMAC nor (where allowed) in plaintext - the value was dropped or transformed, so the entry cannot vouch for it", phase, cfg, l.Kind, l.Path, l.Side, l.GoType, l.Shape),
 				map[string]any{"leaf": l, "config": cfg.String(), "phase": phase, "expected_hmac": c11RefHMAC(saltVal, l.Value), "req_exempt": cs.ReqExempt, "resp_exempt": cs.RespExempt, "operation": cs.In.Request.Operation, "entry_excerpt": c11Snip(out, "\x00")})
 		}
 	}
@@ -774,10 +1106,11 @@ func c11NewFormatter(saltVal, prefix string) (*c11Formatter, error) {
 
 func TestVerif_C11_FormatCanary(t *testing.T) {
 	seed := kit.Seed(11)
-	r := kit.NewResult(t, "c11-format-canary", seed, "a case is one generated LogInput (request data, response data, auth, wrap info; containers of depth 2..5 built from 20 Go container/leaf kinds) formatted as a request entry and as a response entry under all four (hmac_accessor, elide_list_responses) settings plus one log_raw control; it is non-trivial when it holds at least one secret leaf at depth >= 2 and its (shape, leaf-type multiset) signature is new")
+	r := kit.NewResult(t, "c11-format-canary", seed, "a case is one generated LogInput (request data, response data, auth, wrap info; containers of depth 2..5 built from 20 Go container/leaf kinds; string leaves drawn from 23 value-shape classes) formatted as a request entry and as a response entry under all four (hmac_accessor, elide_list_responses) settings plus one log_raw control; it is non-trivial when it holds at least one secret leaf at depth >= 2 and its (shape, leaf-type multiset) signature is new")
 	defer r.Write(t)
 	r.Assume("a data leaf may appear in plaintext only if some map key on its path is listed in audit_non_hmac_{request,response}_keys (widest reading of 'fields explicitly exempted'); map keys, paths, lease ids, display names, metadata, warnings and error texts are outside the property")
-	r.Assume("strings that parse as RFC 3339 timestamps are exempt from hashing by design; generated canaries never parse as such")
+	r.Assume("a string value that is an RFC 3339 date-time and nothing else (section 5.6 ABNF with the field ranges of 5.7, judged by the monitor's own parser) is left readable on purpose: the audit documentation does not list this exemption ('most strings ... are hashed'), the code comment in hashWalker.Primitive does ('marshaling a time results in a RFC3339 string ... we know we strictly have a valid timestamp and nothing else'); every other string shape - digits only, dates, near-timestamps, numbers and booleans as strings, JSON text, base64 / hex / UUID, whitespace, very long, unicode, field names - must be replaced by its salted HMAC; an empty string may stay empty (it has no plaintext)")
+	r.Assume("values too short or too regular to carry a random canary (PINs, OTPs, epochs, \"true\", \" \") are searched as complete JSON string tokens in value position; when several leaves of a case share such a value the entry may show it at most as often as there are leaves the property allows to be readable")
 	ctx := namespace.RootContext(context.Background())
 	total := kit.N(2000, 300000)
 	shard, shards := kit.Shard()
@@ -893,6 +1226,18 @@ func TestVerif_C11_FormatCanary(t *testing.T) {
 	r.Require("jwt_wrapping_tokens", 10)
 	r.Require("raw_control_found", 5000)
 	r.Require("shape_resp:rawbody", 20)
+	for _, sh := range c11Shapes {
+		min := int64(sh.w) * 300 / int64(shards)
+		r.Require("shape_leaves_checked:"+sh.name, min)
+		switch sh.name {
+		case "rfc3339-exact", "rfc3339-lenient", "empty": // readable by assumption / open finding / nothing to hash
+		default:
+			r.Require("shape_hmac_seen:"+sh.name, min/2)
+		}
+		if sh.name != "empty" {
+			r.Require("raw_control_found_shape:"+sh.name, int64(sh.w)*20/int64(shards))
+		}
+	}
 	r.Require("shape_resp:list", 50)
 	if only == "" {
 		if m := r.Get("raw_control_missing"); m > 0 {
@@ -919,3 +1264,6 @@ func c11ReplayStub(t *testing.T, name string) {
 
 func TestVerif_C11_Order(t *testing.T)      { c11ReplayStub(t, "c11-replay-stub-audit-order") }
 func TestVerif_C11_FileDevice(t *testing.T) { c11ReplayStub(t, "c11-replay-stub-audit-file") }
+func TestVerif_C11_DeviceFaults(t *testing.T) {
+	c11ReplayStub(t, "c11-replay-stub-audit-device-faults")
+}
